@@ -412,7 +412,7 @@ def m_npow2(I, a, e, ci):
         while k < int(n):
             k *= 2
         return IntV(k)
-    return IntV(n + isym(f"pad[{n}]"))
+    return IntV(n + sfun("pad")(n))
 
 
 @model("core::num::<impl usize>::trailing_zeros", "core::num::<impl u32>::leading_zeros", "core::num::<impl usize>::is_power_of_two")
